@@ -3,6 +3,7 @@
   despawn, re-insert and rebuild (issued between frames, through commands or from observers) interleaved with frames.
 -/
 import BEI.Proofs.Mirror
+import BEI.Proofs.Total
 namespace BEI.Props.C07
 open BEI
 
@@ -77,5 +78,44 @@ theorem last_holder_removes_group (su : Setup) (st : AppState) (h : Reachable su
       obtain ⟨h2, h3⟩ := (hm' c e').mp h1
       have := hlast e' ((hm.mirror c e').mp h2)
       exact h3 ⟨rfl, this⟩
+
+/-! ### none of the operations panics -/
+
+/-- every instance built through the public `bind` API (in any order, re-binding included) is well formed -/
+theorem empty_wf : CtxWF {} := by intro ab hab; cases hab
+
+theorem bind_wf (ci : ContextInstance) (a : Nat) (d : Dim) (cons : Bool) (acc : Accum) (f : ActionBind → ActionBind)
+    (hf : ∀ b, (f b).action = b.action) (h : CtxWF ci) : CtxWF (ci.bind a d cons acc f) := by
+  unfold ContextInstance.bind
+  cases hg : ci.actions.get? a with
+  | some x =>
+    simp only
+    intro ab hab
+    simp only [List.mem_map] at hab
+    obtain ⟨b, hb, rfl⟩ := hab
+    by_cases hba : (b.action == a) = true
+    · simp only [hba, if_true, hf]; exact h b hb
+    · simp only [hba, Bool.false_eq_true, if_false]; exact h b hb
+  | none =>
+    simp only
+    intro ab hab
+    simp only [List.mem_append, List.mem_singleton] at hab
+    rw [get?_isSome_iff_key]
+    simp only [List.map_append, List.map_cons, List.map_nil, List.mem_append, List.mem_singleton]
+    rcases hab with hab | rfl
+    · exact Or.inl ((get?_isSome_iff_key _ _).mp (h ab hab))
+    · exact Or.inr (hf _)
+
+/-- (5) for every reachable state — any history of spawn, insert, remove, despawn, re-insert and rebuild, between
+    frames, through commands or from observers — no lifecycle operation and no frame can panic: every `expect` of
+    `ContextInstances::{add, remove, rebuild, update}`, `ContextInstance::{update, trigger_removed}` and
+    `ActionBind::update` finds what it looks for (given that `context_instance` builds its instances with `bind`) -/
+theorem no_operation_panics (su : Setup) (hs : SetupWF su) (st : AppState) (h : Reachable su st) (o : Op) :
+    (applyOp su st o).isSome :=
+  applyOp_total su hs st (reachable_pred su Good (good_appPred su hs) good_init st h) o
+
+theorem no_frame_panics (su : Setup) (hs : SetupWF su) (st : AppState) (h : Reachable su st) (raw : RawInput) (t : Tick)
+    (reacts : Reactions) (posts : List Op) (fuel : Nat) : (frame su st raw t reacts posts fuel).isSome :=
+  frame_total su hs st raw t reacts posts fuel (reachable_pred su Good (good_appPred su hs) good_init st h)
 
 end BEI.Props.C07
